@@ -13,6 +13,9 @@ CLAIMED = {
  "C07": ("path-occurrence counting, must-pass-through and who-may-receive rules on SSA (static)",
          "Structural mechanism of record-atomic FIFO file writing decided for all schedules and stall patterns: <=1 fallible enqueue per record on every path of every per-record writer; multi-enqueue header writers only on a fresh queue with sufficient capacity; the enqueue is all-or-nothing with correct results per arm and is the only sender; single consumer goroutine, received slices go straight to bufio; drain-until-empty then bufio.Flush then acknowledge; Flush/Close wait for exactly one acknowledge; async writer closed before the file; enqueued bytes never backed by a writer-owned buffer. Not decided: disk write errors in the consumer, what callers do with a rejection.",
          "Go channel FIFO and bufio semantics assumed; anchors found structurally (chan []byte field, go statement in the constructor)", "DESIGN.md §2 C07"),
+ "C10": ("typestate / must-pass-through / lockset dataflow on SSA, who-may-close, close-chain rule (static)",
+         "Path skeleton of the source life cycle decided for every path and implementation: error exits of the start function reset the state; run-done WaitGroup balanced per exit; core loop defers deactivation at entry and returns on a closed block channel; every mutex released exactly once on all paths; life-cycle state written only under its mutex; nothing blocking under the state mutex; abort closed only through the close-once helper under the mutex, before the barrier wait; run state touched by Stop only after the barrier; abort/next-block channels re-made per start; abort arm of every looping producer closes the chain and every intermediate receiver forwards or closes. Not decided: deadlock freedom over all interleavings, runtime goroutine census, release of OS resources on failed start (R5 not built).",
+         "life-cycle constants and the AnySource/SourceState types are name-keyed anchors; VTA resolves the six implementations", "DESIGN.md §2 C10"),
 }
 
 NOT_BUILT_REASON = "static rule designed in DESIGN.md but not built yet; not claimed until it is"
